@@ -1,25 +1,26 @@
-(* C06 - faithful models of the LITERAL and MARKER renderers of anweiss/cddl's AST pretty-printer.
-   (no proofs in this file; proofs are in Fmt/RenderProofs.v)
+(* C06 - faithful models of the LITERAL and MARKER renderers of anweiss/cddl's AST pretty-printer, as REPAIRED in /repo
+   (commits f413e66 float fraction, 030ea7c text re-escaping, 5fdde4e unwrap marker, 39ac196 tag without type,
+   36b2064 operator spacing).  (no proofs in this file; proofs are in Fmt/RenderProofs.v)
 
    What is modelled, function by function:
-     Type2::{UintValue,IntValue}::fmt, token::Value::{UINT,INT}   write!(f, "{}", n)             -> render_uint / render_int
-     Type2::FloatValue::fmt, Value::FLOAT                         write!(f, "{}", x : f64)        -> render_float
-     Type2::TextValue::fmt, Value::TEXT                           write!(f, "\"{}\"", s)           -> render_text  (nothing is re-escaped)
-     Type2::UTF8ByteString::fmt, ByteValue::UTF8                  write!(f, "'{}'", utf8(b))       -> render_bytes BU
+     Type2::{UintValue,IntValue}::fmt, token::Value::{UINT,INT}   write!(f, {}, n)               -> render_uint / render_int
+     token::fmt_float (Type2::FloatValue, Value::FLOAT, RangeValue::FLOAT)                       -> render_float
+     token::fmt_text  (Type2::TextValue, Value::TEXT): quotes and backslashes re-escaped         -> render_text
+     Type2::UTF8ByteString::fmt, ByteValue::UTF8                  the bytes between apostrophes  -> render_bytes BU
      ByteValue::B16  h' HEXLOWER '    ByteValue::B64  b64' BASE64URL_NOPAD '                     -> render_bytes BH / BB
-     ast::Occur::fmt (ast/mod.rs:3092)                                                           -> render_occur
-     TagConstraint::fmt (token.rs:37), Type2::{TaggedData,DataMajorType,Any}::fmt heads          -> render_tag_head
-     ControlOperator::fmt (token.rs:567)                                                         -> render_ctl
-     Identifier::fmt (ast/mod.rs:246), SocketPlug::fmt                                           -> render_ident
-     Type2::Unwrap::fmt (prints NO '~'), Type2::ChoiceFromGroup::fmt ('&'), MemberKey::Type1 cut -> render_unwrap / render_gname / render_cut
-     RangeCtlOp::RangeOp::fmt                                                                    -> render_rangeop
+     ast::Occur::fmt (ast/mod.rs)                                                                -> render_occur
+     TagConstraint::fmt, Type2::{TaggedData,DataMajorType,Any}::fmt                              -> render_tag_head, render_tagged
+     ControlOperator::fmt (token.rs)                                                             -> render_ctl
+     Identifier::fmt, SocketPlug::fmt                                                            -> render_ident
+     Type2::Unwrap::fmt ('~'), Type2::ChoiceFromGroup::fmt ('&'), MemberKey::Type1 cut           -> render_unwrap / render_gname / render_cut
+     RangeCtlOp::RangeOp::fmt, Type1::fmt (blanks around operators)                              -> render_rangeop, render_type1
 
    Floats. Rust's Display for f64 prints the shortest decimal digit string that reads back to the same binary64, WITHOUT an
-   exponent and without a trailing ".0".  The digit generation (Grisu/Dragon) is taken as given: a finite float enters the
-   model as sign, decimal mantissa m (not divisible by 10, or 0) and decimal exponent e, value = (-1)^s * m * 10^e.  What is
-   modelled exactly is the layout decision `core::fmt::float::float_to_decimal_common_shortest` -> `digits_to_dec_str`
-   with frac_digits = 0: digits, zero padding, and a '.' only when e < 0. The correspondence run compares this model with the
-   real output for a catalogue of binary64 values (digits computed by Python's repr, also shortest round-trip). *)
+   exponent; fmt_float appends ".0" when the value is integral.  The digit generation (Grisu/Dragon) is taken as given: a
+   finite float enters the model as sign, decimal mantissa m (not divisible by 10, or 0 with exponent 0) and decimal exponent
+   e, value = (-1)^s * m * 10^e.  What is modelled exactly is the layout: digits, zero padding, a '.' inside the digits when
+   e < 0 and the suffix ".0" otherwise. The correspondence run takes the digits from the crate's own `{:e}` rendering of
+   the value and compares this model with the real output for a catalogue of binary64 values. *)
 From Cddl Require Import Base.Bytes.
 Open Scope N_scope.
 
@@ -58,12 +59,15 @@ Definition render_float (x : fl) : list N :=
           if k <? len
           then let j := N.to_nat (len - k) in sign neg ++ firstn j ds ++ [46] ++ skipn j ds
           else sign neg ++ [48; 46] ++ zeros (k - len) ++ ds
-      | _ => sign neg ++ ds ++ zeros (Z.to_N e)
+      | _ => sign neg ++ ds ++ zeros (Z.to_N e) ++ [46; 48]       (* integral: fmt_float appends ".0" *)
       end
   end.
 
 (* ---------------------------------------------------------------------- text and byte strings *)
-Definition render_text (utf8 : list N) : list N := [34] ++ utf8 ++ [34].
+(* fmt_text: the double quote (34) and the backslash (92) are written with a backslash in front, everything else as it is *)
+Definition escape_text (utf8 : list N) : list N :=
+  flat_map (fun c => if (c =? 34) || (c =? 92) then [92; c] else [c]) utf8.
+Definition render_text (utf8 : list N) : list N := [34] ++ escape_text utf8 ++ [34].
 
 Inductive bkind := BU | BH | BB.   (* '..'   h'..'   b64'..' *)
 
@@ -135,6 +139,10 @@ Definition render_tag_head (t : taghead) : list N :=
   | TAny => [35]
   end.
 
+(* Type2::TaggedData::fmt: the head, then "(" type ")" only when there is a content type (`#6`, `#6.n` have none) *)
+Definition render_tagged (c : option N) (content : option (list N)) : list N :=
+  render_tag_head (TTagged c) ++ match content with Some t => [40] ++ t ++ [41] | None => [] end.
+
 (* ---------------------------------------------------------------------- control operators *)
 Inductive ctl :=
 | CSize | CBits | CRegexp | CPcre | CIregexp | CBitfield | CCbor | CCborseq | CWithin | CCat | CDet | CPlus | CAbnf | CAbnfb
@@ -169,9 +177,13 @@ Inductive socket := SNone | SType | SGroup.
 Definition render_socket (s : socket) : list N := match s with SNone => [] | SType => [36] | SGroup => [36; 36] end.
 Definition render_ident (s : socket) (id : list N) : list N := render_socket s ++ id.
 
-(* Type2::Unwrap::fmt writes the identifier only: the '~' is NOT printed *)
-Definition render_unwrap (s : socket) (id : list N) : list N := render_ident s id.
+Definition render_unwrap (s : socket) (id : list N) : list N := 126 :: render_ident s id.       (* "~" name *)
 Definition render_gname (s : socket) (id : list N) : list N := 38 :: render_ident s id.          (* "&" name *)
 (* MemberKey::Type1::fmt: key ++ " " ++ ("^ " when cut) ++ "=>" ; here the part after the key *)
 Definition render_cut (cut : bool) : list N := (if cut then [32; 94; 32] else [32]) ++ [61; 62].
 Definition render_rangeop (inclusive : bool) : list N := if inclusive then [46; 46] else [46; 46; 46].
+
+(* Type1::fmt: a blank before the operator when the left operand ends in an identifier (type name, ~name, &name), and a
+   blank after it in that case and after every control operator *)
+Definition render_type1 (name_like : bool) (left : list N) (op : list N) (is_ctl : bool) (right : list N) : list N :=
+  left ++ (if name_like then [32] else []) ++ op ++ (if name_like || is_ctl then [32] else []) ++ right.
